@@ -61,7 +61,7 @@ def main(tier, seed):
 
     # ------------------------------------------------------------------ softmax head
     for (oshape, B, _) in batch_cases(tier):
-        for n in ([2, 3] if tier == "quick" else [2, 3, 4]):
+        for n in ([2, 3] if (tier == "quick" or B) else [2, 3, 4]):
             nb = B or 1
             pol = SoftmaxPolicy(FreeNet((nb, n)))
             gdef, st = nnx.split(pol)
